@@ -209,8 +209,15 @@ class Run:
         evdir.mkdir(exist_ok=True, parents=True)
         (evdir / f"{self.prop}.json").write_text(json.dumps(ev, indent=1, default=str) + "\n")
 
+        shown = 0
         for ln in lines:
+            if ln.startswith("VIOLATION"):
+                shown += 1
+                if shown > 12:
+                    continue
             print(ln)
+        if shown > 12:
+            print(f"[{self.prop}] ... and {shown - 12} more violated obligations (all listed in the evidence/replay directory)")
         print(f"[{self.prop}] obligations={n_ob} discharged={n_ok} violations={violations} known={known_hits} "
               f"undecided={len(self.undecided)} bounded={len(self.bounded)} wall={wall:.1f}s")
         if violations:
